@@ -331,6 +331,22 @@ def one_case(rng):
     if out == 'BADCOLS':
         return None, js, None, 'svid2col does not enumerate the columns of A', kinds
     why = oracle_model(rng, user, cons, sets, kinds, atoms, comp)
+    if why is None and rng.random() < 0.3:
+        # the conic system is a function of the constraints: compiling the same objects again (and again) states the same system
+        sig0 = ([(co.type, int(co.len)) for co in K], A.shape[0], sorted(n_ for n_ in names if not n_.startswith('_')))
+        for rep in (2, 3):
+            try:
+                with warnings.catch_warnings():
+                    warnings.simplefilter('ignore')
+                    A2, b2, K2, vm2, vars2, _ = cl.compile_constrained_system(cons + [s for s, _, _ in sets])
+            except Exception as e:
+                why = 'compilation #%d of the same constraints raised %r' % (rep, e)
+                break
+            sig2 = ([(co.type, int(co.len)) for co in K2], A2.shape[0], sorted(v.name for v in vars2 if not v.name.startswith('_')))
+            if sig2 != sig0:
+                why = ('compilation #%d of the same constraint objects gives cones %s with %d rows over the user Variables %s; the first '
+                       'compilation gave %s with %d rows over %s' % (rep, sig2[0], sig2[1], sig2[2], sig0[0], sig0[1], sig0[2]))
+                break
     cin = cq((tbl, dummy, cs, ss, vars_in))
     return cin, js, cq(out), why, kinds
 
